@@ -590,6 +590,11 @@ def run_templates(chk, sep, ex, quick):
             chk.dist("skipped.float")
             continue
         if texts_random(c):
+            if random_feeds_a_call(c):
+                # the random value is an argument of another call: even the failure class may
+                # legitimately depend on it (MathRandom(MathRandom(-1, 1), 0)) -- not compared
+                chk.dist("skipped.random_value_feeds_a_call")
+                continue
             chk.dist("compared.status_only.random")
             same = (got[0] == m[0]) and (got[0] == "ok" or got == m)
         elif got[0] == "ok" and m[0] == "ok" and got != m and fmt_repr_case(sep, c):
@@ -601,6 +606,20 @@ def run_templates(chk, sep, ex, quick):
             chk.report("impl-differs-from-spec", case, impl=got, model=m,
                        law="evaluate_payload_template returns the value (or failure class) the model gives",
                        classify=classify)
+
+
+RANDOM_CALL = re.compile(r"States\.(MathRandom|UUID)\b")
+
+
+def random_feeds_a_call(c):
+    """some MathRandom/UUID call is not the outermost call of its `.$` text"""
+    if has_dollar_elem(c["template"]):
+        return True
+    for t in texts_of(c["template"]):
+        hits = [m.start() for m in RANDOM_CALL.finditer(t)]
+        if hits and (len(hits) > 1 or hits[0] != len(t) - len(t.lstrip())):
+            return True
+    return False
 
 
 def fmt_repr_case(sep, c):
